@@ -73,6 +73,13 @@ def lists(ctx: Ctx):
         for order in itertools.permutations(range(3)):
             recs = [{"id": (0x0042, 0x0018, 0x0043)[j], "data": [vals3[j]]} for j in order]
             out.append(recs)
+    # records that feed ONE derived attribute together (modes / aux heat, fan speeds, swing, humidity): every pair of them over the values that matter
+    GROUP = [0x0214, 0x0219, 0x0234, 0x0210, 0x0215, 0x021F, 0x0216, 0x0222, 0x0212, 0x0218]
+    GV = [0, 1, 2, 3, 4, 5, 6, 7, 9, 10, 12, 13]
+    for a, b in itertools.permutations(GROUP, 2):
+        pairs = list(itertools.product(GV, GV))
+        for va, vb in (pairs if not ctx.quick else rng.sample(pairs, 10) + [(9, 0), (0, 9), (9, 2), (1, 0), (0, 1), (7, 0), (0, 7)]):
+            out.append([{"id": a, "data": [va]}, {"id": b, "data": [vb]}])
     # first page decodes to nothing
     out.append([{"id": 0x7777, "data": [1]}, {"id": 0x004B, "data": [1]}, {"id": 0x0001, "data": []}, {"id": 0x0214, "data": [1]},
                 {"id": 0x0212, "data": [1]}])
